@@ -264,6 +264,8 @@ EXTRA = [
     "SELECT $$it\u2019s$$, '\\'x', 'a''b' FROM t",
     "SELECT a FROM t WHERE b = ARRAY[]::varchar[]",
     "ALTER TABLE t ADD COLUMN c INT",
+    "ALTER POLICY p ON t RENAME TO q",
+    "ALTER CONNECTOR c SET DCPROPERTIES (b = '2', a = 'it''s')",
     "MERGE INTO target t USING source s ON t.id = s.id WHEN MATCHED THEN UPDATE SET val = s.val WHEN NOT MATCHED THEN INSERT (id, val) VALUES (s.id, s.val)",
 ]
 
